@@ -194,8 +194,15 @@ def history_witness(prog, done, seed):
     hist = []
     for nm in done:
         base = nm.rstrip('!')
+        outs_before = list(m._output_names)
         try:
             r = opmap[base](m)
+            if not nm.endswith('!') and not base.startswith(('out_', 'rename_out')):
+                # only an output selection changes the selected outputs (as far as the variables still exist in the model)
+                want = [o for o in outs_before if m._model.has_variable(o)]
+                if list(m._output_names) != want or m.n_outputs() != len(want):
+                    return {'what': 'after the history [%s] the selected outputs are %s (n_outputs %d); they were %s before %s, and the model still has %s' % (
+                        ' -> '.join(done[:len(hist) + 1]), list(m._output_names), m.n_outputs(), outs_before, base, want), 'history': list(done), 'expected': want, 'observed': list(m._output_names)}
             if base == 'copy':
                 # a copy behaves like its original: same outputs and, if enabled, the same sensitivities (shape and values)
                 xx = np.linspace(0.6, 1.4, m.n_parameters())
